@@ -862,7 +862,14 @@ func (g *gen) heavy(thorough bool) {
 		g.fs = append(g.fs, Feat{ID: id, Tags: []Tag{{K: "note", V: Val{Kind: 's', S: sb.String()}}, {K: "point", V: Val{Kind: 'p', P: g.circle(7, 11, 300000)}}}})
 		g.note("heavy:long-value")
 	case 1: // a point with hundreds / thousands of tags
-		n := pick(300, 3000)
+		if !big && r.Bool() { // a record of more than 64 KB out of three keys and values
+			ts := manyTags(33000 + r.Intn(3000))
+			ts[len(ts)-1].V.P = g.circle(5, 11, 300000)
+			g.fs = append(g.fs, Feat{ID: g.freshID(0, p0.NS), Tags: ts})
+			g.note("heavy:tags-34000-repeated")
+			break
+		}
+		n := pick(300, 20000) // 20 000 distinct tags: a record of more than 64 KB
 		ts := []Tag{{K: "point", V: Val{Kind: 'p', P: g.circle(5, 11, 300000)}}}
 		for i := 0; i < n; i++ {
 			ts = append(ts, Tag{K: fmt.Sprintf("key:%d", i), V: Val{Kind: 's', S: fmt.Sprintf("value number %d", i%97)}})
